@@ -846,6 +846,18 @@ func chainMain(args []string) error {
 					}
 				}()
 			}
+			if os.Getenv("HV_DEBUG") != "" {
+				dctx := n.Ctx()
+				nb := n.App.BankKeeper.GetBalance(dctx, authtypes.NewModuleAddress(stakingtypes.NotBondedPoolName), utils.BaseDenom)
+				bd := n.App.BankKeeper.GetBalance(dctx, authtypes.NewModuleAddress(stakingtypes.BondedPoolName), utils.BaseDenom)
+				var es []string
+				for _, u := range n.App.StakingKeeper.GetAllUnbondingDelegations(dctx, w.Acct("v2").Addr) {
+					for _, e := range u.Entries {
+						es = append(es, fmt.Sprintf("%s h=%d init=%s bal=%s", u.ValidatorAddress[len(u.ValidatorAddress)-6:], e.CreationHeight, e.InitialBalance, e.Balance))
+					}
+				}
+				fmt.Fprintln(os.Stderr, "DEBUGPOOL", n.Header.Height, "notbonded", nb.Amount, "bonded", bd.Amount, es)
+			}
 			hash := n.Commit()
 			if imp != nil {
 				imp.EndBlock()
